@@ -159,13 +159,21 @@ class C14(Prop):
             y, m, d = scn["date"]
             with host_zone(scn["zone"]), frozen(float(local_instant(scn["zone"], y, m, d, 12, 0))):
                 return self.execute(dict(scn, _inner=True))
+        from aioswitcher.schedule.parser import SwitcherSchedule
         from aioswitcher.schedule.tools import calc_duration
         evs = []
+
+        def dur(st, en, j):
+            # every fourth duration is read off a schedule object, as a listing hands it out: slot ids repeat (a slot that was
+            # edited, two devices that both count from 0), the times do not
+            if (s + j) % 4 == 1:
+                return SwitcherSchedule(str(j % 2), False, set(), st, en).duration
+            return calc_duration(st, en)
         for row in scn["rows"]:
             s = row["s"]
             st = f"{s // 60:02d}:{s % 60:02d}"
             evs.append({"ev": "Dur", "s": s, "es": row["es"],
-                        "outs": [text(calc_duration(st, f"{e // 60:02d}:{e % 60:02d}")) for e in row["es"]]})
+                        "outs": [text(dur(st, f"{e // 60:02d}:{e % 60:02d}", j)) for j, e in enumerate(row["es"])]})
         return evs
 
     def nontrivial(self, ev):
